@@ -109,6 +109,12 @@ theorem pass1Row_node (st : P1) (k : Nat) (r : RRow)
     (cases addEdges st k _ <;> rfl)
 
 
+theorem type_of_wait' {t : Str} (h : kindOf t = .wait) : t = "wait_for_response".toList := by
+  rcases switch_type_of_kind (.inl h) with h1 | h1 | h1
+  · exact h1
+  · rw [h1, kindOf_value] at h; cases h
+  · rw [h1, kindOf_group] at h; cases h
+
 /-- the node the compiler creates for a row of the fragment is the compiled form of the row with no
 out-edge yet -/
 theorem rowNode_sim (c : CRow) (hf : nodeRowOk c = true) (edges : List Compile.Edge) (act : Option (Uid × Str))
@@ -131,13 +137,38 @@ theorem rowNode_sim (c : CRow) (hf : nodeRowOk c = true) (edges : List Compile.E
     have ht := switch_type hsw
     refine wp_mono (rowNode_switch _ act s ht) ?_
     intro n s' ⟨hb, hnk, hna, sw, hrt, hfr⟩
-    refine ⟨hb, (fun r hr => by rw [hrt] at hr; cases hr), fun M ns => .sw sw (kindOf_switch ht) ⟨hnk, hna, hrt, hfr.operand, hfr.rname, ?_, hfr.nrSome, ?_, ?_, ?_, ?_, ?_⟩⟩
+    refine ⟨hb, (fun r hr => by rw [hrt] at hr; cases hr), fun M ns => .sw sw (kindOf_switch ht) ⟨hnk, hna, hrt, hfr.operand, hfr.rname, ?_, hfr.nrSome, ?_, ?_, ?_, ?_, ?_, ?_⟩⟩
     · rw [hfr.wait]; rfl
     · rw [hfr.cases]; rfl
     · rw [hfr.cases, hfr.cats]; rfl
     · rw [hfr.cats]; exact List.Forall₂.nil
     · rw [hfr.dflt]; rfl
     · intro nr hnr; rw [hfr.nr nr hnr]; rfl
+    · refine ⟨by rw [hfr.cats]; rfl, ?_⟩
+      have hw : sw.wait = if c.row.type = "wait_for_response".toList then some (timeoutOf c.row) else none := hfr.wait
+      unfold baseNames
+      cases hnn : sw.noResp with
+      | none =>
+        have hnot : ¬ (kindOf c.row.type = .wait ∧ timeoutOf c.row ≠ 0) := by
+          rintro ⟨h1, h2⟩
+          have ht1 := type_of_wait' h1
+          rw [if_pos ht1] at hw
+          obtain ⟨m, hm⟩ : ∃ m, timeoutOf c.row = m + 1 := ⟨timeoutOf c.row - 1, by omega⟩
+          have := hfr.nrSome.mpr ⟨m, by rw [hw, hm]⟩
+          rw [hnn] at this; cases this
+        rw [if_neg hnot]
+        simp [hfr.dname]
+      | some nr =>
+        obtain ⟨m, hm⟩ := hfr.nrSome.mp (by rw [hnn]; rfl)
+        rw [hw] at hm
+        have hyes : kindOf c.row.type = .wait ∧ timeoutOf c.row ≠ 0 := by
+          by_cases ht1 : c.row.type = "wait_for_response".toList
+          · rw [if_pos ht1] at hm
+            injection hm with hm
+            exact ⟨by rw [ht1]; exact kindOf_wait, by omega⟩
+          · rw [if_neg ht1] at hm; cases hm
+        rw [if_pos hyes]
+        simp [hfr.dname, hfr.nrname nr hnn]
   · simp only [fixedRow, Bool.and_eq_true, List.isEmpty_iff] at hf
     obtain ⟨⟨⟨hsw, _⟩, _⟩, _⟩ := hf
     have ht := fixed_type hsw
@@ -199,7 +230,7 @@ theorem NodeSim.congrM {M M' : Maps} {ns : Array NodeM} {n : NodeM} {c : CRow} {
     exact .plain hk ⟨hp.kind, hp.router, hp.acts, hp.dest.congrM (hlast es (fun e he => he)), hp.blank⟩
   | sw r hk hp =>
     refine .sw r hk ⟨hp.kind, hp.acts, hp.router, hp.operand, hp.rname, hp.wait, hp.nrSome, hp.cases, hp.casecat,
-      ?_, ?_, ?_⟩
+      ?_, ?_, ?_, hp.names⟩
     · refine forall2_imp_mem hp.catd ?_
       intro cat e he hd
       refine hd.congrM ?_
@@ -242,7 +273,7 @@ theorem RowSim.congrM {M M' : Maps} {ns : Array NodeM} {n : NodeM} {c : CRow} {e
         simp only [Option.map_some, Option.some.injEq] at hk
         exact h e (hl e (List.mem_of_getLast? hg)) k hk
     refine .impl i' n' r hk ⟨hp.kind, hp.router, hp.acts, hp.link, hp.rnode, hp.kind',
-      hp.acts', hp.router', hp.operand, hp.rname, hp.wait, hp.noResp, hp.cases, hp.casecat, ?_, ?_, hp.some⟩
+      hp.acts', hp.router', hp.operand, hp.rname, hp.wait, hp.noResp, hp.cases, hp.casecat, ?_, ?_, hp.some, hp.names⟩
     · refine forall2_imp_mem hp.catd ?_
       intro cat e he hd
       refine hd.congrM ?_
